@@ -39,7 +39,7 @@ NS = [2, 4, 8, 16, 32, 64]
 SIGNAL_MODES = ('signal', 'signalmain', 'baresignal', 'baresignalmain')
 SLOW_RESET_MODES = ('resetslow', 'bareresetslow')
 RESET_MODES = ('resetwhile', 'bareresetwhile') + SLOW_RESET_MODES
-ALL_MODES = ('logger', 'bare', 'mixed', 'fatal', 'mixed+fatal', 'throw', 'throwlogger', 'filtered', 'pattern') + SIGNAL_MODES + RESET_MODES
+ALL_MODES = ('logger', 'bare', 'mixed', 'fatal', 'mixed+fatal', 'throw', 'throwlogger', 'filtered', 'pattern', 'twopipes') + SIGNAL_MODES + RESET_MODES
 
 
 def nprod(cfg):
@@ -121,6 +121,40 @@ def classify(toks, n, per):
     if not bad and len(locked_m) == len(order) and locked_m != order:
         bad.append(('acq_order', 'delivery order differs from the order in which the handler mutex was acquired', 0))
     return bad
+
+
+def split_twopipes(toks, n):
+    """mode twopipes: producers with an even number log through pipeline A, the others through pipeline B.
+    -> [(name, producers of that pipeline, its tokens with the producers renumbered 0..)]"""
+    parts = {0: [], 1: []}
+    for t in toks:
+        f = t.split('.')
+        try:
+            p = int(f[1])
+        except Exception:
+            parts[0].append(t); continue
+        f[1] = str(p // 2) if p >= 0 else f[1]
+        parts[p & 1 if p >= 0 else 0].append('.'.join(f))
+    return [('A', (n + 1) // 2, parts[0]), ('B', n // 2, parts[1])]
+
+
+def twopipes_verdict(model, cfg, toks):
+    """per-pipeline oracles: every pipeline object numbers ITS OWN deliveries 0,1,2,... in delivery order (plus exactly once,
+    per-producer order, no overlap within one pipeline); the extracted acceptor/oracle is run on each pipeline's trace.
+    -> (violations [(kind, detail, position in that pipeline's trace, pipeline, that trace)], {pipeline: model verdict})"""
+    bad, mvs = [], {}
+    for name, k, ptoks in split_twopipes(toks, cfg['n']):
+        for b in classify(ptoks, k, cfg['per']):
+            bad.append((b[0], 'pipeline %s (own SeqNumberAttr from addSeqNumber(), own sink; producers renumbered within the pipeline): %s'
+                        % (name, b[1]), b[2], name, ptoks))
+        line = '%d %s %s' % (k, ','.join([str(cfg['per'])] * k), ' '.join(t for t in ptoks if t[0] in 'EX'))
+        rc, out, _ = vlib.run_lines(model, [line])
+        try:
+            a, o, pre, tot = (int(x) for x in out[0].split())
+            mvs[name] = {'accept': a, 'oracle': o, 'prefix': pre, 'events': tot}
+        except Exception:
+            mvs[name] = None
+    return bad, mvs
 
 
 def run_one(impl, cfg, timeout=120):
@@ -306,7 +340,8 @@ def special_configs(chk, reps, total):
     cfgs = []
     for _ in range(reps):
         for mode, n, per in (('throw', 4, 100), ('throwlogger', 4, 100), ('filtered', 4, total // 4), ('filtered', 16, total // 16),
-                             ('pattern', 4, 1500), ('pattern', 8, 750), ('pattern', 2, 4000)):
+                             ('pattern', 4, 1500), ('pattern', 8, 750), ('pattern', 2, 4000),
+                             ('twopipes', 2, 300), ('twopipes', 4, total // 4), ('twopipes', 8, total // 8)):
             cfgs.append({'mode': mode, 'n': n, 'per': per, 'seed': chk.rng.randrange(1, 2 ** 31),
                          'perturb': chk.rng.choice([0, 1, 2]), 'dup': 0, 'stall': 0})
     return cfgs
@@ -376,6 +411,7 @@ def run():
     reported = 0
     disagreements = 0
     fmt_checked = 0
+    twopipes_runs = 0
     for cfg, rc, hdr, toks, err in results:
         if rc != 0 or hdr is None:
             kind = 'hang' if rc == 124 else 'crash'
@@ -409,6 +445,46 @@ def run():
                                                                                     det.get('formatted'), det.get('single_threaded_expectation')),
                              dict(cfg, kind='format_corrupt', header=hdr[:300], **det), kind='format_corrupt')
                     reported += 1
+            continue
+        if cfg['mode'] == 'twopipes':
+            n_events += len(toks); n_deliv += sum(1 for t in toks if t[0] == 'X'); twopipes_runs += 1
+            if 'OVERFLOW' in hdr:
+                tbad, tmv = [('duplicate', 'more events than messages allow', len(toks), 'A', toks)], {}
+            else:
+                tbad, tmv = twopipes_verdict(model, cfg, toks)
+            if any(v is None for v in tmv.values()):
+                chk.broke('model driver produced no verdict', dict(cfg, kind='driver')); continue
+            ex_bad = [b for b in tbad if b[0] != 'acq_order']
+            if ex_bad or tbad or any(v['oracle'] == 0 for v in tmv.values()):
+                if not tbad:
+                    nm = next(k for k, v in tmv.items() if v['oracle'] == 0)
+                    tbad = [('oracle', 'pipeline %s: extracted oracle prop_c02_b is false' % nm, tmv[nm]['prefix'], nm,
+                             dict((x[0], x[2]) for x in split_twopipes(toks, cfg['n']))[nm])]
+                b = (ex_bad or tbad)[0]
+                kinds[b[0]] = kinds.get(b[0], 0) + 1
+                if reported < 3:
+                    def again(c, want=b[0]):
+                        rc2, hdr2, toks2, _ = run_one(impl, c)
+                        return hdr2 is not None and any(x[0] == want for x in twopipes_verdict(model, c, toks2)[0])
+                    small = shrink_config(cfg, again)
+                    shrunk_from = None
+                    for _ in range(3):
+                        rc2, hdr2, toks2, _ = run_one(impl, small)
+                        bad2, mv2 = twopipes_verdict(model, small, toks2) if hdr2 else ([], {})
+                        if any(x[0] == b[0] for x in bad2):
+                            shrunk_from = {'n': cfg['n'], 'per': cfg['per']}
+                            cfg, toks, hdr, tbad, tmv, b = small, toks2, hdr2, bad2, mv2, next(x for x in bad2 if x[0] == b[0])
+                            break
+                    chk.fail('%s: %s (mode twopipes: two pipeline objects in one process, each configured with addSeqNumber() and its own sink; '
+                             '%d threads x %d messages, even producers -> pipeline A, odd producers -> pipeline B)' % (b[0], b[1], cfg['n'], cfg['per']),
+                             dict(cfg, kind=b[0], detail=b[1], pipeline=b[3], violations_in_this_run=len(tbad), acceptor=tmv, shrunk_from=shrunk_from,
+                                  trace_of_that_pipeline_around_violation=b[4][max(0, b[2] - 12):b[2] + 6],
+                                  deliveries_of_both_pipelines_in_global_order=[t for t in toks if t[0] == 'X'][:40],
+                                  full_trace_events=len(toks), header=hdr), kind=b[0])
+                    reported += 1
+            elif any(v['accept'] == 0 for v in tmv.values()):
+                disagreements += 1
+                chk.broke('acceptor rejects a per-pipeline trace that the boolean oracle takes', dict(cfg, kind='acceptor', acceptor=tmv))
             continue
         n_events += len(toks)
         xs = [t for t in toks if t[0] == 'X']
@@ -544,7 +620,7 @@ def run():
                                          note='S = emission observed by a directly connected functor; Q = reception by a QObject in the main '
                                               'thread connected by the library\'s sendToSignal() (string-based AutoConnection)'),
                     'reset_while_logging': reset_stats, 'corpus_configurations': len(corpus),
-                    'formatted_texts_compared': fmt_checked,
+                    'formatted_texts_compared': fmt_checked, 'two_pipeline_runs_with_per_pipeline_numbering_oracle': twopipes_runs,
                     'flush_intervals_recorded': sum(sum(1 for t in r[3] if t[0] == 'F') for r in results),
                     'perturb_histogram': {str(p): sum(1 for r in results if r[0]['perturb'] == p) for p in range(4)},
                     'dupfilter_runs': sum(1 for r in results if r[0]['dup']), 'long_handler_runs': sum(1 for r in results if r[0].get('stall')),
@@ -567,6 +643,10 @@ def replay(path):
     print('recorded schedule (tail):', ' '.join(r.get('schedule_up_to_first_rejected_event', []) or r.get('trace_sink_emission_reception', [])))
     for k in range(5):   # schedules are not deterministic: re-run the same configuration a few times
         rc, hdr, toks, err = run_one(impl, cfg)
+        if hdr and cfg['mode'] == 'twopipes':
+            tb, tm = twopipes_verdict(model, cfg, toks)
+            print('re-run %d: implementation rc=%d %s; per-pipeline violations: %s; model per pipeline: %s' % (k, rc, hdr, [x[:2] for x in tb[:2]], tm))
+            continue
         bad = classify(toks, nprod(cfg), cfg['per']) if hdr else [('crash', err[-200:], 0)]
         print('re-run %d: implementation rc=%d %s; violations: %s; model: %s' % (k, rc, hdr, bad[:2], model_verdict(model, cfg, toks) if hdr else None))
         if hdr and cfg['mode'] in SIGNAL_MODES:
